@@ -47,7 +47,9 @@ type c08Ev struct {
 }
 
 // The lock under test never lives alone: it is the first field of a cell whose next 4 bytes are
-//   layout 0: zero, layout 1: a non-zero datum, layout 2: another Spinlock that is held throughout
+//
+//	layout 0: zero, layout 1: a non-zero datum, layout 2: another Spinlock that is held throughout
+//
 // (lock operations must neither look at nor touch those bytes).
 type c08Cell struct {
 	l  Spinlock
@@ -76,7 +78,14 @@ func c08Deadline() time.Duration {
 	return 20 * time.Second
 }
 
-func c08LockWord(l *Spinlock) int { return int(atomic.LoadUint32(&l.state)) }
+// lock word as a JSON-safe int (TLC's JSON reader turns integers >= 2^31 into 0)
+func c08LockWord(l *Spinlock) int {
+	v := atomic.LoadUint32(&l.state)
+	if v > 0x3fffffff {
+		return 0x3fffffff
+	}
+	return int(v)
+}
 
 // ---------------------------------------------------------------- leg G
 
@@ -125,6 +134,9 @@ func (cs *c08Case) run(w *c08Worker) {
 			w.reply <- ok
 		case "rel":
 			cs.counter = w.c + 1
+			cs.lock.Release()
+			w.reply <- true
+		case "srel": // Release by a task that holds nothing (the schedule issues it only while the lock is free)
 			cs.lock.Release()
 			w.reply <- true
 		}
@@ -242,6 +254,14 @@ func (cs *c08Case) replay(sched [][2]interface{}, grace time.Duration) bool {
 				cs.emit(c08Ev{K: "call", T: t, Op: "try", Res: "fail"})
 				cs.emit(c08Ev{K: "fail", T: t})
 			}
+		case "srel":
+			cs.emit(c08Ev{K: "srel", T: t})
+			w.cmd <- "srel"
+			if _, back := cs.waitReply(w); !back {
+				cs.emit(c08Ev{K: "stuck", T: t, Op: "srel"})
+				return false
+			}
+			cs.emit(c08Ev{K: "srelret", T: t})
 		case "rel":
 			cs.emit(c08Ev{K: "rel", T: t})
 			w.cmd <- "rel"
@@ -404,6 +424,13 @@ func TestVerifC08Stress(t *testing.T) {
 		for i := range seeds {
 			seeds[i] = master.Int63()
 		}
+		var pre, post []c08Ev
+		stray := w%3 != 2
+		if stray { // "Release while the lock is free has no effect": nobody has touched the lock yet
+			s0 := atomic.AddInt64(&seq, 1)
+			lock.Release()
+			pre = []c08Ev{{Seq: s0, K: "srel", T: 16}, {Seq: atomic.AddInt64(&seq, 1), K: "srelret", T: 16}}
+		}
 		var wg gosync.WaitGroup
 		var ready int32 // spin barrier: the threads enter the window within a few hundred nanoseconds
 		for th := 0; th < nth; th++ {
@@ -496,7 +523,27 @@ func TestVerifC08Stress(t *testing.T) {
 			os.Stdout.WriteString("VERIF-STATS windows=" + strconv.Itoa(w) + " events=" + strconv.Itoa(total) + " stuck=1\n")
 			return
 		}
-		var evs []c08Ev
+		if stray { // every thread has stopped and released what it took: the lock is free again
+			s0 := atomic.AddInt64(&seq, 1)
+			lock.Release()
+			post = []c08Ev{{Seq: s0, K: "srel", T: 16}, {Seq: atomic.AddInt64(&seq, 1), K: "srelret", T: 16},
+				{Seq: atomic.AddInt64(&seq, 1), K: "call", T: 16, Op: "try"}}
+			// ... and can still be taken
+			if lock.TryToAcquire() {
+				c := counter
+				post[2].Res = "ok"
+				post = append(post, c08Ev{Seq: atomic.AddInt64(&seq, 1), K: "ok", T: 16, C: c})
+				counter = c + 1
+				post = append(post, c08Ev{Seq: atomic.AddInt64(&seq, 1), K: "rel", T: 16})
+				lock.Release()
+				post = append(post, c08Ev{Seq: atomic.AddInt64(&seq, 1), K: "relret", T: 16})
+			} else {
+				post[2].Res = "fail"
+				post = append(post, c08Ev{Seq: atomic.AddInt64(&seq, 1), K: "fail", T: 16})
+			}
+		}
+		evs := append([]c08Ev{}, pre...)
+		evs = append(evs, post...)
 		for _, lg := range logs {
 			evs = append(evs, lg...)
 		}
